@@ -372,14 +372,24 @@ class FakeOle:
 
 
 def xls_detector_on(streams):
-    """Real is_xls_encrypted with olefile replaced by a container view holding `streams` (no OLE writer needed)."""
+    """Real is_xls_encrypted with olefile replaced by a container view holding `streams` (no OLE writer needed).  The view is
+    installed where the detector module looks the library up, whatever its import style: the attributes of the `olefile`
+    module itself (`import olefile [as x]`, also inside a function) and every global of the detector module that is bound to
+    `olefile.OleFileIO` / `olefile.isOleFile` (`from olefile import ...`)."""
+    import olefile
     from sharepoint2text.parsing.extractors.util import encryption as E
-    real = E.olefile
-    E.olefile = types.SimpleNamespace(isOleFile=lambda f: True, OleFileIO=lambda f: FakeOle(streams))
+    fakes = {id(olefile.OleFileIO): (lambda f, *a, **k: FakeOle(streams)), id(olefile.isOleFile): (lambda f, *a, **k: True)}
+    real_mod = {"OleFileIO": olefile.OleFileIO, "isOleFile": olefile.isOleFile}
+    rebound = {name: val for name, val in vars(E).items() if id(val) in fakes and val in (olefile.OleFileIO, olefile.isOleFile)}
+    for name, val in rebound.items():
+        setattr(E, name, fakes[id(val)])
+    olefile.OleFileIO, olefile.isOleFile = fakes[id(real_mod["OleFileIO"])], fakes[id(real_mod["isOleFile"])]
     try:
         return E.is_xls_encrypted(io.BytesIO(b"\xd0\xcf\x11\xe0"))
     finally:
-        E.olefile = real
+        olefile.OleFileIO, olefile.isOleFile = real_mod["OleFileIO"], real_mod["isOleFile"]
+        for name, val in rebound.items():
+            setattr(E, name, val)
 
 
 # ------------------------------------------------------------ known findings --
